@@ -13,6 +13,9 @@ text extractor and the CMap parser, restricted to crate-local bodies.
     a finite iterator tests a visited set or a counter before each load.
  R4 scanner progress: every loop of the lexer, the content tokenizer, the CMap tokenizer and the
     recovery scanners advances its cursor (or consumes an element) on every path round the loop.
+    Reader-driven loops (a `read`/`read_line`-style call that reports a byte count, no finite iterator)
+    compare that count on every path back to the loop header: at end of input the read yields 0 bytes,
+    and a back path that never looks at the count spins forever.
  R5 decompression caps: no unbounded inflate anywhere; the limited reader's growth is dominated by
     its limit test (shared with C08-R5).
  R6 explicit panic sites (`unwrap`, `expect`, `panic!`, `unreachable!`, `assert!`) in scope are
@@ -44,6 +47,8 @@ BOUNDED_BY = {
     "recursion:collect_references": "parse",
     "recursion:decrypt_object_if_needed": "parse",
     "recursion:decode_text_with_font": "font",
+}
+EOF_ALLOW = {
 }
 PANIC_ALLOW = {
     "parser::reader::PdfReader::<R>::create_hierarchical_pages_tree:panic_fmt#1": "unreachable!() on the else-branch of `if let Dictionary = cache[key]` two statements after inserting a Dictionary under that key",
@@ -171,6 +176,9 @@ def run(ctx):
                                                         "zero-byte read sets eof and leaves the loop (path-insensitive artefact)",
     })
     ctx.floor("R4", "scanner loops", n4, 15)
+    # R4b end-of-input tests of reader-driven loops
+    n4b = CY.check_eof_tests(ctx, "R4", scope, allow=EOF_ALLOW)
+    ctx.floor("R4", "reader-driven loops", n4b, 6)
     # ---- R5 (shared with C08)
     n5 = 0
     for fid, fn in facts.fns.items():
